@@ -310,9 +310,22 @@ def report(ctx, st, bad, flagged, w, what):
 
 def file_check(b, ctx, st, flagged, w, what):
     from mofun import Atoms
+    import os
+    from vmon.oracle.util import worker_dir, non_ascii, clone
+    # one state in three goes through Atoms.save / Atoms.load with a path, and carries labels and coefficient comments as people
+    # write them (Greek letters, angstrom and degree signs) - put on the harness's own copy of the state
+    via_path = (len(b) + len(b.bonds) + len(b.atom_type_labels)) % 3 == 1
+    path = os.path.join(worker_dir(), "state.lmpdat")
     f = io.StringIO()
     try:
-        b.save_lmpdat(f)
+        if via_path:
+            b = non_ascii(clone(b))
+            b.save(path)
+            with open(path, encoding="utf-8") as fh:
+                f.write(fh.read())
+            st.count("states_saved_to_and_loaded_from_a_path_with_non_ascii_text")
+        else:
+            b.save_lmpdat(f)
     except Exception as e:
         if type(e).__name__ == "PostBroken":
             raise
@@ -332,7 +345,7 @@ def file_check(b, ctx, st, flagged, w, what):
     try:
         contracts.PAIR_MERGE_CONTEXT[0] = bool(flagged)
         try:
-            c = Atoms.load_lmpdat(io.StringIO(text))
+            c = Atoms.load(path) if via_path else Atoms.load_lmpdat(io.StringIO(text))
         finally:
             contracts.PAIR_MERGE_CONTEXT[0] = False
     except Exception as e:
@@ -449,6 +462,8 @@ def requirements(stats, tier):
     need = []
     if stats.get("operations_applied") < (3000 if tier == "quick" else 100000):
         need.append("too few operations applied: %d" % stats.get("operations_applied"))
+    if stats.get("states_saved_to_and_loaded_from_a_path_with_non_ascii_text") < (200 if tier == "quick" else 10000):
+        need.append("states saved to and loaded from a path, with non-ASCII labels and comments: %d" % stats.get("states_saved_to_and_loaded_from_a_path_with_non_ascii_text"))
     for k in ("del", "ext", "rep", "copy", "sub", "rpl", "pop"):
         if not stats.has("operation_kind", k):
             need.append("operation %s never applied" % k)
